@@ -4,7 +4,11 @@
   mul <kind> <val> <kind> <val>        → "<model> <spec>"
   fmul <kind> <val> <kind> <val>       → "<model>\t-"   (a float operand: the documented ε-rule, `NumFloat.multipleOfNum`;
                                           the model observation is the oracle)
-  kind ∈ i8 i16 i32 i64 int u8 u16 u32 u64 uint (val = decimal integer)
+  xcmp <op> OPND OPND / xmul OPND OPND  → "<model>\t-"   an operand `toNum` does not hold: both go through
+                                          `coerce.ToFloat64` (`xval`); OPND = <kind> <val> | nx 0 (a named numeric type:
+                                          not numeric for the code) | cx <bits of |z|> (complex: magnitude, as Go
+                                          computed it) | big <dec> (a *big.Int)
+  kind ∈ i8 i16 i32 i64 int u8 u16 u32 u64 uint uptr (val = decimal integer; uptr = uintptr, held as a uint64)
        | f32 f64 (val = decimal of the IEEE-754 binary64 bit pattern of the widened value)
 -/
 import Gozod.Model.Num
@@ -15,10 +19,82 @@ open Gozod
 def parseNum (kind val : String) : Option Num :=
   if kind == "f64" || kind == "f32" then
     val.toNat?.map (fun b => Num.f (F.ofBits b))
+  else if kind == "uptr" then do
+    let v ← val.toInt?
+    if IntTy.u64.inRange v then some (Num.u v) else none
   else do
     let t ← IntTy.ofString? kind
     let v ← val.toInt?
     if t.inRange v then some (Num.ofInt t v) else none
+
+/-- An operand of `compareNumeric` / `MultipleOf` in general. -/
+inductive Opnd where
+  | num (n : Num)
+  | uptr (v : Int)         -- a uintptr: `toNum` holds it as a uint64, `coerce.ToFloat64` has no case for it
+  | named                  -- a named numeric type: `reflectx.IsNumeric` says no
+  | cplx (mag : F)         -- complex64/128: `coerce.ToFloat64` returns the magnitude
+  | big (v : Int)          -- *big.Int: `bigIntToFloat64`
+
+def parseOpnd (kind val : String) : Option Opnd :=
+  if kind == "nx" then some .named
+  else if kind == "cx" then val.toNat?.map (fun b => .cplx (F.ofBits b))
+  else if kind == "big" then val.toInt?.map Opnd.big
+  else if kind == "uptr" then (parseNum kind val).bind (fun n => match n with | .u v => some (.uptr v) | _ => none)
+  else (parseNum kind val).map Opnd.num
+
+/-- What `toNum` holds (the exact payload), if anything. -/
+def Opnd.toNum? : Opnd → Option Num
+  | .num n => some n
+  | .uptr v => some (.u v)
+  | _ => none
+
+/-- `toFloat64` of pkg/validate (= `coerce.ToFloat64`, false on an error): NaN floats, big
+    integers beyond MaxFloat64 and uintptr values have no reading; a complex NaN magnitude is
+    returned as it is. -/
+def xval : Opnd → Option F
+  | .num (.f x) => if x.isNaN then none else some x
+  | .num n => some (NumFloat.numToF n)
+  | .uptr _ => none
+  | .named => none
+  | .cplx m => some m
+  | .big v => match Coerce.finOrOverflow (Coerce.bigToF64 v) with
+    | .ok x => some x
+    | .error _ => none
+
+def isNamed : Opnd → Bool
+  | .named => true
+  | _ => false
+
+def isFloatNum : Num → Bool
+  | .f _ => true
+  | _ => false
+
+/-- `compareNumeric`: the exact path when `toNum` holds both operands; otherwise `IsNumeric` on
+    both, `toFloat64Pair`, `cmpFloats`. -/
+def xcmp (op : CmpOp) (a b : Opnd) : Bool :=
+  match a.toNum?, b.toNum? with
+  | some x, some y => implCmp op x y
+  | _, _ =>
+    if isNamed a || isNamed b then false else
+    match xval a, xval b with
+    | some x, some y => (match F.cmp x y with
+      | some o => op.ofOrdering o
+      | none => false)
+    | _, _ => false
+
+/-- `MultipleOf`: the exact integer branch when `toNum` holds two integers; otherwise the ε-rule
+    on the two `coerce.ToFloat64` readings. -/
+def xmul (a b : Opnd) : Bool :=
+  let ints := match a.toNum?, b.toNum? with
+    | some x, some y => if isFloatNum x || isFloatNum y then none else some (multipleOfInts x y)
+    | _, _ => none
+  match ints with
+  | some r => r
+  | none =>
+    if isNamed a || isNamed b then false else
+    match xval a, xval b with
+    | some x, some y => NumFloat.floatMultipleOf x y
+    | _, _ => false
 
 def b2s (b : Bool) : String := if b then "1" else "0"
 
@@ -42,9 +118,17 @@ def handle : List String → String
       | some s => s!"{b2s (multipleOfInts x y)} {b2s s}"
       | none => "bad-op"
     | _, _ => "bad-op"
+  | ["xcmp", op, ka, a, kb, b] =>
+    match CmpOp.ofString? op, parseOpnd ka a, parseOpnd kb b with
+    | some op, some x, some y => s!"{b2s (xcmp op x y)}\t-"
+    | _, _, _ => "bad-op"
+  | ["xmul", ka, a, kb, b] =>
+    match parseOpnd ka a, parseOpnd kb b with
+    | some x, some y => s!"{b2s (xmul x y)}\t-"
+    | _, _ => "bad-op"
   | ["fmul", ka, a, kb, b] =>
-    match parseNum ka a, parseNum kb b with
-    | some x, some y => s!"{b2s (NumFloat.multipleOfNum x y)}\t-"
+    match parseOpnd ka a, parseOpnd kb b with
+    | some x, some y => s!"{b2s (xmul x y)}\t-"
     | _, _ => "bad-op"
   | _ => "bad-op"
 
